@@ -29,6 +29,7 @@ EXPLANATION = (
     "the same struct/element types, the element count travels in the header field the reader uses, and every written field is read; "
     "no ctypes.Structure defines a method or property with the name of one of its fields; the optional-int constructor and accessor "
     "are mirror images over the discriminant byte."
+    " The test separating 'undefined' from 'integer' in the optional-int constructor is evaluated for None, several ints, a bool and a non-builtin integer object; payload/segment buffers are created per call. C15.Z: no truthiness test on an int-typed value."
 )
 LEVEL_TEXT = (
     "Static analysis, partial: structural round-trip argument for all 9 message classes (tables, offsets, element types, "
